@@ -296,10 +296,10 @@ def cases(tier):
     bm = BMODELS
     if tier == 'thorough':
         # histories of length 2: every ordered pair of fragments, both endings among {solved, exception mid-construction,
-        # solved with solver options}, for four (model B, back-end) combinations (the full 8 x 6 x 8 x 6 sweep for all 16
+        # solved with solver options}, for two (model B, back-end) combinations (the full 8 x 7 x 8 x 7 sweep for all 16
         # combinations was measured at several hours)
         short = [ENDINGS.index(e) for e in ('solved', 'exception', 'solved-with-options')]
-        for bname, be in (('partition', 'cvxpy'), ('lmi', 'mosek'), ('null-accumulate', 'cvxpy'), ('three-functions', 'mosek')):
+        for bname, be in (('partition', 'cvxpy'), ('lmi', 'mosek')):
             bspec = dict(BMODELS)[bname]
             for fi in range(len(FRAGMENTS)):
                 cs.append(dict(id="%s-%s-A%d-len2" % (bname, be, fi), bname=bname, bspec=bspec, backend=be, k=2, forced=[fi],
@@ -336,6 +336,6 @@ def main(tier, only=None):
                      "case); the history always starts with B itself",
                      "the solver's share is small here: path feasibility and equality of coefficient terms; the "
                      "discriminating comparison is structural (stated in DESIGN.md)"],
-        bounds=dict(history_length=1 if tier == 'quick' else "1 (all models, back-ends, fragments, endings) and 2 (4 model / back-end "
+        bounds=dict(history_length=1 if tier == 'quick' else "1 (all models, back-ends, fragments, endings) and 2 (2 model / back-end "
                                                              "combinations, all fragment pairs, 3 endings)", fragments=len(FRAGMENTS), endings=len(ENDINGS),
                     models_B=len(BMODELS), outside="longer histories; fragments outside the library"))
